@@ -140,7 +140,8 @@ def make_case0(g, a, b):
     if 0.26 <= kind < 0.32 and style in ("Snake", "Kebab"):
         # prefix + the term + a tail that mixes two separator kinds (_old_name_foo-bar): only the term's span changes
         sep = SEP[style]
-        tailx = r.choice(["_foo-bar", "-some_thing", "_v2-x"])
+        # (tail words are outside the term vocabulary: a tail that itself contains the term would be a second occurrence)
+        tailx = r.choice(["_alt-part", "-some_thing", "_v2-x"])
         ident = prefix + sep.join(a) + tailx
         return ident, prefix + sep.join(b) + tailx, "mixed_separators", (style, [], a, [], prefix, False, None)
     if kind < 0.2 and style in ("Snake", "Kebab", "ScreamingSnake"):
